@@ -248,7 +248,12 @@ impl Scenario for C14 {
         "one real VirtualSignBus with 1-4 real VirtualSigns shared by 1-4 real Sign controllers (some for absent addresses) on scheduler-controlled threads plus a raw traffic task; the seeded scheduler decides at every message whose message reaches the bus next"
     }
     fn run(&self, cx: &Cx) -> Result<(), Violation> {
-        let nsigns = 1 + cx.draw(4) as usize;
+        let nsigns = if cx.chance(1, 24) {
+            cx.probe("bus_with_8_or_more_signs");
+            8 + cx.draw(5) as usize
+        } else {
+            1 + cx.draw(4) as usize
+        };
         let addrs = gens::distinct_addresses(cx, nsigns);
         let flips: Vec<PageFlipStyle> = (0..nsigns).map(|_| gens::flip_style(cx)).collect();
         let bus = VirtualSignBus::new(addrs.iter().zip(flips.iter()).map(|(a, f)| VirtualSign::new(*a, *f)));
